@@ -444,6 +444,21 @@ class CParser:
             decl=declaration, param_decls=param_decls, body=body, coord=decl.coord
         )
 
+    def _declare_definition_parameters(self, decl: c_ast.Node) -> None:
+        """Declares the parameters of the function being defined in the scope
+        of its body (the '{' has just been lexed, so that scope is open).
+        _parse_function_decl does this when the parameter list is directly
+        followed by '{'; this also covers declarators where it is not:
+        'int (f(int T)) {' and 'int (*f(int T))(int U) {'.
+        """
+        if isinstance(decl, c_ast.FuncDecl) and decl.args is not None:
+            for param in decl.args.params:
+                if isinstance(param, c_ast.EllipsisParam):
+                    break
+                name = getattr(param, "name", None)
+                if name:
+                    self._add_identifier(name, param.coord)
+
     def _select_struct_union_class(self, token: str) -> type:
         """Given a token (either STRUCT or UNION), selects the
         appropriate AST class.
@@ -678,6 +693,7 @@ class CParser:
             param_decls = None
             if self._peek_type() != "LBRACE":
                 self._parse_error("Invalid function definition", decl.coord)
+            self._declare_definition_parameters(decl)
             spec: _DeclSpec = dict(
                 qual=[],
                 alignment=[],
@@ -712,6 +728,7 @@ class CParser:
                 param_decls = self._parse_declaration_list()
             if self._peek_type() != "LBRACE":
                 self._parse_error("Invalid function definition", decl.coord)
+            self._declare_definition_parameters(decl)
             if not spec["type"]:
                 spec["type"] = [c_ast.IdentifierType(["int"], coord=spec_coord)]
             func = self._build_function_definition(
